@@ -5,6 +5,7 @@ CONSTANTS NK = 7
   KGen <- G6
   MaxN = 3
   OtherKinds <- OthersAll
+  RawModes <- RawAll
   D = 80
 INIT Init
 NEXT Next
